@@ -1,5 +1,6 @@
 //! `sjh <property> <tier> <seed> [stats.json]` — runs the real serde_json in-process on generated
 //! cases and prints one line per case: `op args… => observation` (consumed by `sjdriver`).
+extern crate alloc;
 mod common;
 mod obs;
 mod gen;
@@ -28,6 +29,7 @@ mod typed;
 mod c07;
 mod c16x;
 mod streamraw;
+mod lexmath;
 
 fn main() {
     let args: Vec<String> = std::env::args().collect();
@@ -73,7 +75,7 @@ fn main() {
             c04::run(&mut sink, thorough, seed);
             c04m::run(&mut sink, thorough, seed);
         }
-        "C07" => c07::run(&mut sink, thorough, seed),
+        "C07" => { c07::run(&mut sink, thorough, seed); lexmath::run(&mut sink, thorough, seed); }
         "replay" => { /* replay lines are `op args…` on stdin */
             let mut s = String::new();
             use std::io::Read;
@@ -119,6 +121,7 @@ fn replay(sink: &mut common::Sink, toks: &[&str]) {
         "tt" | "tt3" | "pfxs" | "rfaults" => typed::replay(sink, toks),
         "f64rt" | "f32rt" | "f64pr" | "f32pr" | "f32all" => c07::replay(sink, toks),
         "rawser" | "rawnest" | "stream3" | "sdepth" | "spfx" | "raw3" => streamraw::replay(sink, toks),
+        "lm" => lexmath::replay(sink, toks),
         _ => eprintln!("cannot replay op {}", toks[0]),
     }
 }
